@@ -49,3 +49,21 @@ def c04_mem_wat():
             out.append('  (func (export "%s_%d") (param i32) (param %s)\n    local.get 0\n    local.get 1\n    %s%s\n  )' % (name.replace(".", "_"), k, TY[vt], name, memarg_text(off, al)))
     out.append(")")
     return "\n".join(out) + "\n"
+
+
+def split_functions(wat_text):
+    """Split a generated one-function-per-entry module into (header lines, [function texts])."""
+    lines = wat_text.split("\n")
+    head, funcs, cur = [], [], None
+    for ln in lines[:-2] if lines[-1] == "" else lines[:-1]:
+        if ln.startswith("  (func"):
+            if cur is not None:
+                funcs.append("\n".join(cur))
+            cur = [ln]
+        elif cur is not None:
+            cur.append(ln)
+        else:
+            head.append(ln)
+    if cur is not None:
+        funcs.append("\n".join(cur))
+    return head, funcs
